@@ -753,6 +753,52 @@ func deliveryHistory(c *ev.Check, name string, seq []string) {
 	c.Add("queue_traces", 1)
 }
 
+// oneAtATime: the histories assume that the versions of one cluster are applied one at a time, in delivery order (the
+// controller's single worker). On the real controller: a worker is held right after it has read version 1 from the
+// lister; version 2 is delivered; one second later the worker is let go. Whatever else happened meanwhile, once the
+// queue has drained the cluster is that of version 2.
+func oneAtATime(c *ev.Check) {
+	l := ctlrig.NewLiveHolding()
+	defer l.Close()
+	endpointsOfB := func() string {
+		ci, ok := l.C.Get("b")
+		if !ok {
+			return "<absent>"
+		}
+		eps := ci.AllEndpoints()
+		sort.Strings(eps)
+		return strings.Join(eps, ",")
+	}
+	v1, v2 := objB(), objB()
+	v2.Spec.Servers = []proxyv1alpha1.UpstreamClusterServer{{Endpoint: "https://127.0.0.1:4"}}
+	l.Watched("create", v1)
+	if !l.Wait(func() bool { return endpointsOfB() == "https://127.0.0.1:3" }, 20*time.Second) {
+		c.EngineError("one-at-a-time: version 1 was not applied")
+		return
+	}
+	v1b := v1.DeepCopy()
+	v1b.Spec.Servers = []proxyv1alpha1.UpstreamClusterServer{{Endpoint: "https://127.0.0.1:5"}}
+	l.Hold()
+	l.Watched("update", v1b)
+	if !l.Wait(l.Held, 20*time.Second) {
+		c.EngineError("one-at-a-time: no worker asked the lister within 20 s")
+		return
+	}
+	l.Watched("update", v2)
+	time.Sleep(time.Second) // (not an oracle: room for whatever else may run while the worker is held)
+	l.Release()
+	c.Add("transitions", 3)
+	if !l.Wait(func() bool { return endpointsOfB() == "https://127.0.0.1:4" }, 20*time.Second) {
+		c.Violation("delivery/superseded-version-applied-last", fmt.Sprintf("a worker was held after it had read a version of cluster b from the lister; the next version was delivered; the worker was let go one second later: 20 s on the gateway has endpoints %q for b, the latest object says %q", endpointsOfB(), "https://127.0.0.1:4"), map[string]interface{}{"task": "one-at-a-time"})
+		return
+	}
+	time.Sleep(300 * time.Millisecond)
+	if got := endpointsOfB(); got != "https://127.0.0.1:4" {
+		c.Violation("delivery/superseded-version-applied-last", fmt.Sprintf("the latest version of cluster b was applied and then replaced by a superseded one: endpoints %q", got), map[string]interface{}{"task": "one-at-a-time"})
+	}
+	c.Add("queue_traces", 1)
+}
+
 func main() {
 	c := ev.Start("C11", "model_checking")
 	c.Assume = []string{
@@ -785,6 +831,7 @@ func main() {
 	}
 	tasks = append(tasks, ev.Task{Name: "queue-conformance", Run: func() { queueConformance(c) }})
 	tasks = append(tasks, deliveryTasks(c)...)
+	tasks = append(tasks, ev.Task{Name: "delivery/one-at-a-time", Run: func() { oneAtATime(c) }})
 	tasks = append(tasks, xstate.Tasks(c, all, c.Pick(3, 4), 32)...)
 	for _, sp := range specs[1:] {
 		d := c.Pick(4, 5)
